@@ -303,4 +303,26 @@ CHECKS = {
              "thorough": {"checks": 20000, "shards": 16, "timeout": 3400}},
         ],
     },
+    "C13": {
+        "level": "exploration",
+        "level_text": ("Generated forests (1-4 parents under distinct grand-parents so that equal base names occur; regular files, nested "
+                       "and empty directories, names that look like the tool's own 1_/2_ prefixes, symlinks to files / directories / "
+                       "nothing / an ancestor, FIFOs) and generated argument lists (directories, single files, entries inside a given "
+                       "directory, duplicates, '.', trailing slashes, a/../a spellings, symlinked arguments) are scanned with the "
+                       "production pair manifest.ScanPaths + app.buildPathResolver. Oracle: an independent lstat walk written in the "
+                       "harness: every directory and regular file beneath each argument is listed exactly once under that argument's "
+                       "name; rel_paths are distinct and sorted; each file's size equals what reading the resolved path returns and the "
+                       "resolved path is the originating file (os.SameFile); counts add up; a rescan is deeply equal; entries that are "
+                       "neither plain files nor directories are absent or listed with their readable size."),
+        "level_note": "Runs as root (permission-denied branches unreachable); Windows path semantics not exercised; for symlinked directory arguments only faithfulness, not completeness, is required.",
+        "technique": "property-based testing (rapid) with a differential oracle: production scanner + resolver versus an independent reference walk",
+        "rule": ("case = forest x argument list; non-trivial = >= 2 arguments and (base-name collision or prefix look-alike or symlink "
+                 "or overlap or special entry); distinct by class set, top-level names and item count."),
+        "assumptions": ["the documented disambiguation (ordinal prefix k_ for repeated base names) is the reference naming"],
+        "units": [
+            {"name": "xfer", "pkg": X, "run": "^TestVerifC13",
+             "quick": {"checks": 1200, "shards": 4, "timeout": 900},
+             "thorough": {"checks": 15000, "shards": 16, "timeout": 3400}},
+        ],
+    },
 }
